@@ -442,6 +442,34 @@ func (rn *runner) reqEvent(in *rinst, op *Op) {
 			"acah", hv("Access-Control-Allow-Headers"), "acma", hv("Access-Control-Max-Age"), "vary", hv("Vary"))))
 }
 
+func (rn *runner) miscEvent(in *rinst, op *Op) {
+	var ms, anyms []string
+	name, ppat, rpat := "", "", ""
+	sameP, sameR := true, true
+	res, _ := guard(func() {
+		a := mux.Methods()
+		if len(a) > 0 {
+			a[0] = "CLOBBERED" // the returned slice is a copy: writing to it must not reach the library
+		}
+		b := mux.AnyMethods()
+		if len(b) > 0 {
+			b[0] = "CLOBBERED"
+		}
+		ms, anyms = mux.Methods(), mux.AnyMethods()
+		name = in.r.Name()
+		if len(op.Chain) > 0 {
+			f := in.facade(op)
+			if f.res != nil {
+				rpat, sameR = f.res.Pattern(), f.res.Router() == in.r
+			} else if f.p != nil {
+				ppat, sameP = f.p.Pattern(), f.p.Router() == in.r
+			}
+		}
+	})
+	rn.emit(obj("ev", js("misc"), "res", js(res), "methods", jarr(ms), "any", jarr(anyms), "name", js(name), "chain", chainJSON(op.Chain), "isres", jbool(op.Res),
+		"ppat", js(ppat), "rpat", js(rpat), "sameRouter", jbool(sameP && sameR)))
+}
+
 func isRemoval(op *Op) bool { return op.Op == "remove" || op.Op == "clean" }
 
 func (rn *runner) runRouterCase(c *Case) {
@@ -476,6 +504,8 @@ func (rn *runner) runRouterCase(c *Case) {
 		w0 := len(in.e.wraps)
 		lastRes := "ok"
 		switch op.Op {
+		case "misc": // accessors outside the listed properties: Methods()/AnyMethods() copies, Name(), facade Pattern()/Router()
+			rn.miscEvent(in, op)
 		case "facade": // create a long-lived Prefix / Resource object; later calls name it by fid
 			fid := op.Fid
 			op.Fid = ""
